@@ -17,12 +17,9 @@ func Read[T allowedGenericTypes](reader io.Reader) (result T, err error) {
 func ReadBytes(reader io.Reader, length int) ([]byte, error) {
 	readBytes := make([]byte, length)
 
-	nBytes, err := reader.Read(readBytes)
-	if err != nil {
-		return nil, ierrors.Wrap(err, "failed to read serialized bytes")
-	}
-	if nBytes != length {
-		return nil, ierrors.Errorf("failed to read serialized bytes: read bytes (%d) != size (%d)", nBytes, length)
+	// a single Read may legitimately return fewer bytes than requested (io.Reader contract): read until the buffer is full
+	if nBytes, err := io.ReadFull(reader, readBytes); err != nil {
+		return nil, ierrors.Wrapf(err, "failed to read serialized bytes: read bytes (%d) != size (%d)", nBytes, length)
 	}
 
 	return readBytes, nil
